@@ -12,6 +12,7 @@ import (
 	"encoding/binary"
 	"encoding/json"
 	"errors"
+	"fmt"
 	"io"
 	"math/rand"
 	"os"
@@ -140,6 +141,25 @@ func vfwEmptyCall() M {
 func vfwEmptyAuth() M {
 	e := []int{}
 	return M{"stamp": e, "machine": e, "uid": e, "gid": e, "gids": [][]int{}}
+}
+
+// vfwGuardLine runs one replay step; a panic of the code under test becomes a trace line of its own
+// (a panic is an observation the trace spec judges, not a failure of the harness).
+func vfwGuardLine(what M, f func() M) (line M) {
+	defer func() {
+		if r := recover(); r != nil {
+			msg := fmt.Sprint(r)
+			if len(msg) > 200 {
+				msg = msg[:200]
+			}
+			wb, _ := json.Marshal(what) // as text: the fields differ from step to step
+			if len(wb) > 400 {
+				wb = wb[:400]
+			}
+			line = M{"ev": "panic", "what": string(wb), "msg": msg}
+		}
+	}()
+	return f()
 }
 
 // ---------------------------------------------------------------- one decode
@@ -354,53 +374,56 @@ func TestVF_WireVectors(t *testing.T) {
 			t.Fatalf("vector %q: %v", sc.Text(), err)
 		}
 		counts[v.T+"."+v.K]++
-		var line M
-		switch v.T {
-		case "enc":
-			var b bytes.Buffer
-			switch v.K {
-			case "str":
-				xdrEncodeString(&b, string(vfwBytes(v.Val)))
-			case "fh":
-				xdrEncodeFileHandle(&b, binary.BigEndian.Uint64(vfwBytes(v.Val)))
+		line := vfwGuardLine(M{"t": v.T, "k": v.K, "in": v.In, "w": v.W, "avail": v.Avail, "val": v.Val}, func() M {
+			var line M
+			switch v.T {
+			case "enc":
+				var b bytes.Buffer
+				switch v.K {
+				case "str":
+					xdrEncodeString(&b, string(vfwBytes(v.Val)))
+				case "fh":
+					xdrEncodeFileHandle(&b, binary.BigEndian.Uint64(vfwBytes(v.Val)))
+				default:
+					t.Fatalf("enc kind %s", v.K)
+				}
+				line = M{"ev": "enc", "k": v.K, "val": v.Val, "got": vfwInts(b.Bytes())}
+			case "dec":
+				line = vfwDecode(v.K, vfwBytes(v.In))
+				line["ev"], line["k"], line["in"] = "dec", v.K, v.In
+			case "cls":
+				line = vfwCls(r, &v)
+			case "rml":
+				fr := make([]vfwFrag, len(v.Frags))
+				for i, x := range v.Frags {
+					fr[i] = vfwFrag{x.W, x.D}
+				}
+				line = vfwRml(r, v.Max, fr)
+			case "rmb":
+				in := vfwBytes(v.In)
+				rd := bytes.NewReader(in)
+				rm := NewRecordMarkingReader(rd)
+				rm.MaxRecordSize = v.Max
+				rec, err := rm.ReadRecord()
+				line = M{"ev": "rmb", "max": v.Max, "in": v.In, "out": vfwClass(err), "rec": vfwInts(rec), "used": len(in) - rd.Len()}
+				if err == nil && rd.Len() > 0 { // a second record on the same reader (buffer reuse)
+					rec2, err2 := rm.ReadRecord()
+					line["out2"], line["rec2"], line["used2"], line["has2"] = vfwClass(err2), vfwInts(rec2), len(in)-rd.Len(), true
+				} else {
+					line["out2"], line["rec2"], line["used2"], line["has2"] = "none", []int{}, 0, false
+				}
+			case "rmw":
+				var b bytes.Buffer
+				w := NewRecordMarkingWriterWithSize(&b, v.Mf)
+				werr := w.WriteRecord(vfwBytes(v.Data))
+				rm := NewRecordMarkingReader(bytes.NewReader(b.Bytes()))
+				back, berr := rm.ReadRecord()
+				line = M{"ev": "rmw", "mf": v.Mf, "data": v.Data, "got": vfwInts(b.Bytes()), "werr": werr != nil, "back": vfwInts(back), "backok": berr == nil}
 			default:
-				t.Fatalf("enc kind %s", v.K)
+				t.Fatalf("vector type %s", v.T)
 			}
-			line = M{"ev": "enc", "k": v.K, "val": v.Val, "got": vfwInts(b.Bytes())}
-		case "dec":
-			line = vfwDecode(v.K, vfwBytes(v.In))
-			line["ev"], line["k"], line["in"] = "dec", v.K, v.In
-		case "cls":
-			line = vfwCls(r, &v)
-		case "rml":
-			fr := make([]vfwFrag, len(v.Frags))
-			for i, x := range v.Frags {
-				fr[i] = vfwFrag{x.W, x.D}
-			}
-			line = vfwRml(r, v.Max, fr)
-		case "rmb":
-			in := vfwBytes(v.In)
-			rd := bytes.NewReader(in)
-			rm := NewRecordMarkingReader(rd)
-			rm.MaxRecordSize = v.Max
-			rec, err := rm.ReadRecord()
-			line = M{"ev": "rmb", "max": v.Max, "in": v.In, "out": vfwClass(err), "rec": vfwInts(rec), "used": len(in) - rd.Len()}
-			if err == nil && rd.Len() > 0 { // a second record on the same reader (buffer reuse)
-				rec2, err2 := rm.ReadRecord()
-				line["out2"], line["rec2"], line["used2"], line["has2"] = vfwClass(err2), vfwInts(rec2), len(in)-rd.Len(), true
-			} else {
-				line["out2"], line["rec2"], line["used2"], line["has2"] = "none", []int{}, 0, false
-			}
-		case "rmw":
-			var b bytes.Buffer
-			w := NewRecordMarkingWriterWithSize(&b, v.Mf)
-			werr := w.WriteRecord(vfwBytes(v.Data))
-			rm := NewRecordMarkingReader(bytes.NewReader(b.Bytes()))
-			back, berr := rm.ReadRecord()
-			line = M{"ev": "rmw", "mf": v.Mf, "data": v.Data, "got": vfwInts(b.Bytes()), "werr": werr != nil, "back": vfwInts(back), "backok": berr == nil}
-		default:
-			t.Fatalf("vector type %s", v.T)
-		}
+			return line
+		})
 		line["src"] = "tlc"
 		tr.Emit(line)
 		if len(samples) < 3 && (v.T == "cls" || v.T == "rmb") && r.Intn(10) == 0 {
@@ -436,8 +459,11 @@ func TestVF_WireVectors(t *testing.T) {
 		case 1:
 			in = in[:r.Intn(len(in)+1)]
 		}
-		line := vfwDecode("str", in)
-		line["ev"], line["k"], line["in"], line["src"] = "dec", "str", vfwInts(in), "rnd"
+		line := vfwGuardLine(M{"t": "dec", "k": "str", "in": vfwInts(in)}, func() M { return vfwDecode("str", in) })
+		if line["ev"] != "panic" {
+			line["ev"], line["k"], line["in"] = "dec", "str", vfwInts(in)
+		}
+		line["src"] = "rnd"
 		tr.Emit(line)
 		// a call header around random credential / verifier bodies
 		var cb bytes.Buffer
@@ -454,8 +480,12 @@ func TestVF_WireVectors(t *testing.T) {
 		} else if r.Intn(2) == 0 {
 			in = append(in, vfwFill(r, 5)...)
 		}
-		line = vfwDecode("call", in)
-		line["ev"], line["k"], line["in"], line["src"] = "dec", "call", vfwInts(in), "rnd"
+		in2 := in
+		line = vfwGuardLine(M{"t": "dec", "k": "call", "in": vfwInts(in2)}, func() M { return vfwDecode("call", in2) })
+		if line["ev"] != "panic" {
+			line["ev"], line["k"], line["in"] = "dec", "call", vfwInts(in2)
+		}
+		line["src"] = "rnd"
 		tr.Emit(line)
 		// an AUTH_SYS body
 		gids := make([]uint32, r.Intn(18))
@@ -466,8 +496,11 @@ func TestVF_WireVectors(t *testing.T) {
 		if r.Intn(3) == 0 {
 			ab = ab[:r.Intn(len(ab)+1)]
 		}
-		line = vfwDecode("authsys", ab)
-		line["ev"], line["k"], line["in"], line["src"] = "dec", "authsys", vfwInts(ab), "rnd"
+		line = vfwGuardLine(M{"t": "dec", "k": "authsys", "in": vfwInts(ab)}, func() M { return vfwDecode("authsys", ab) })
+		if line["ev"] != "panic" {
+			line["ev"], line["k"], line["in"] = "dec", "authsys", vfwInts(ab)
+		}
+		line["src"] = "rnd"
 		tr.Emit(line)
 		nontrivial++
 	}
@@ -476,7 +509,7 @@ func TestVF_WireVectors(t *testing.T) {
 		for _, miss := range []int{0, 1} {
 			pad := (n + 3) &^ 3
 			v := vfwVec{K: "str", W: vfwWOf(uint32(n)), Avail: pad - miss, Lim: MAX_XDR_STRING_LENGTH}
-			line := vfwCls(r, &v)
+			line := vfwGuardLine(M{"t": "cls", "k": "str", "w": v.W, "avail": v.Avail}, func() M { return vfwCls(r, &v) })
 			line["src"] = "rnd"
 			tr.Emit(line)
 		}
@@ -514,7 +547,7 @@ func TestVF_WireVectors(t *testing.T) {
 				break
 			}
 		}
-		line := vfwRml(r, max, frags)
+		line := vfwGuardLine(M{"t": "rml", "k": "", "frags": frags}, func() M { return vfwRml(r, max, frags) })
 		line["src"] = "rnd"
 		tr.Emit(line)
 		nontrivial++
